@@ -34,7 +34,7 @@ const KINDS: [(Kind, &str, usize); 9] = [
     (Kind::Fisher, "EFT", 1),
     (Kind::Pfe, "PFE", 3),
 ];
-const GAMMAS: [f64; 10] = [0.0, 0.1, 0.2, 0.3, 0.5, 0.6, 0.8, 0.9, 0.99, 0.999];
+const GAMMAS: [f64; 30] = [0.0, 0.1, 0.2, 0.3, 0.5, 0.6, 0.8, 0.9, 0.99, 0.999, 0.05, 0.15, 0.25, 0.35, 0.4, 0.45, 0.55, 0.65, 0.7, 0.75, 0.85, 0.93, 0.95, 0.96, 0.97, 0.975, 0.98, 0.985, 0.995, 0.9975];
 
 fn ma_of(p: usize, m: usize) -> (Spec, Ma) {
     match p % 3 {
